@@ -37,11 +37,15 @@ def mastersOK : Bool :=
 
 theorem masters_ok : mastersOK = true := by decide +kernel
 
-/-- the weight-specific code is an accepted throws code that spells the table's weight -/
+/-- the weight-specific code is an accepted throws code that spells the table's weight (the generic code where the table has none) -/
 def codeOK (ev g ag : String) : Bool :=
   match specificCode Gen.implementRenames Gen.implementRules ev.toList g.toList ag.toList with
-  | none => (w ev g ag).isEmpty
-  | some c => Gen.PAT_THROWS.matchesChars c && Gen.PAT_EVENT_CODE.matchesChars c &&
+  | none => false
+  | some c =>
+    if (w ev g ag).isEmpty then
+      -- no implement tabulated for this label: the generic code, itself an accepted throws code
+      c == ev.toList && Gen.PAT_THROWS.matchesChars c && Gen.PAT_EVENT_CODE.matchesChars c
+    else Gen.PAT_THROWS.matchesChars c && Gen.PAT_EVENT_CODE.matchesChars c &&
               c == ev.toList ++ collapse (w ev g ag) ++ (if isKg (w ev g ag) then ['K'] else [])
 
 def codesOK : Bool :=
